@@ -376,7 +376,16 @@ int main(void)
 			MPT_STRUCT(node) *from, **slot;
 			size_t moved;
 			if (get_tok(drv_w[2], &a) < 0 || get_tok(drv_w[3], &b) < 0) { puts("bad-op"); continue; }
-			if (top_of(a) == top_of(b)) { result("precond", "-"); continue; }
+			if (top_of(a) == top_of(b)) {
+				/* inside one structure: the destination must not lie below an element of the source list from `a` on,
+				 * the source must not lie below (or in) the destination list */
+				MPT_STRUCT(node) *t, *u;
+				int bad = 0;
+				for (t = b; t && !bad; t = t->parent) for (u = a; u; u = u->next) if (u == t) { bad = 1; break; }
+				for (u = b; u->prev; u = u->prev) { }
+				for (t = a; t && !bad; t = t->parent) { MPT_STRUCT(node) *w; for (w = u; w; w = w->next) if (w == t) { bad = 1; break; } }
+				if (bad) { result("precond", "-"); continue; }
+			}
 			/* the list reference is the parent's child link when the node is a first child, a local otherwise */
 			from = a;
 			slot = (a->parent && a->parent->children == a) ? &a->parent->children : &from;
